@@ -16,10 +16,12 @@
 EXTENDS Residues, SWTables
 
 PosIn(order, c) == IF \E k \in 1..Len(order) : order[k][1] = c THEN order[CHOOSE k \in 1..Len(order) : order[k][1] = c][2] ELSE 0
+\* scores are integers in units of 1/Unit (halves by default; tenths for penalties that are not exact in binary)
+Unit(sch) == IF "unit" \in DOMAIN sch THEN sch.unit ELSE 2
 Sub(sch, a, b) ==
   CASE sch.mode = "scores" -> IF a = b THEN sch.match ELSE sch.mismatch
-    [] sch.mode = "dna"  -> 2 * DnaFull[PosIn(DnaFullOrder, Up(a))][PosIn(DnaFullOrder, Up(b))]
-    [] sch.mode = "prot" -> 2 * Blosum62[PosIn(Blosum62Order, Up(a))][PosIn(Blosum62Order, Up(b))]
+    [] sch.mode = "dna"  -> Unit(sch) * DnaFull[PosIn(DnaFullOrder, Up(a))][PosIn(DnaFullOrder, Up(b))]
+    [] sch.mode = "prot" -> Unit(sch) * Blosum62[PosIn(Blosum62Order, Up(a))][PosIn(Blosum62Order, Up(b))]
 InAlphabet(sch, s) ==
   CASE sch.mode = "dna"  -> \A i \in 1..Len(s) : PosIn(DnaFullOrder, Up(s[i])) > 0
     [] sch.mode = "prot" -> \A i \in 1..Len(s) : PosIn(Blosum62Order, Up(s[i])) > 0
